@@ -1,6 +1,7 @@
 package main
 
 import (
+	"bytes"
 	"fmt"
 	"os"
 	"path/filepath"
@@ -20,10 +21,13 @@ func c19Check(x *vs.Exec) *Viol {
 	for _, p := range x.Panics {
 		return &Viol{Sig: "C19/panic/" + p.Frame + "/" + panicClass(p.Value), Msg: "panic: " + p.Value + "\n" + trimStack(p.Stack)}
 	}
-	if len(x.Fails) > 0 {
+	rs := x.Races()
+	if len(x.Fails) > 0 && len(rs) == 0 {
+		if strings.HasPrefix(x.Fails[0], "payload overwritten during the write") {
+			return &Viol{Sig: "C19/race-effect/request-payload-overwritten-while-in-use", Msg: "a request's payload was overwritten by another goroutine while the file server was using it (the happens-before monitor did not flag this schedule because a lock handed over in between orders the two accesses here; with the two goroutines running freely they are concurrent): " + x.Fails[0]}
+		}
 		return &Viol{Sig: "C19/harness/" + sigWords(x.Fails[0]), Msg: x.Fails[0]}
 	}
-	rs := x.Races()
 	if len(rs) == 0 {
 		return nil
 	}
@@ -102,6 +106,95 @@ func c19UfsScenario(nworkers int, dotu bool, D int) Scenario {
 		base, root = scratchDir("c19")
 		defer os.RemoveAll(base)
 		return runVs(rc, &VsSpec{Name: name, Body: body, Check: c19Check, P: D, Delay: true, Sample: func() any { return results }})
+	}}
+}
+
+// (e) Ufs behind raw frames at a small msize: writes on distinct fids pipelined with
+// enough further traffic (on yet other fids) for the 8 x msize receive buffer to be used
+// up while the writes are still being carried out; the transport hands the server one
+// bounded piece per read
+func c19UfsPipelineScenario(msize uint32, piece int, dotu bool, D int) Scenario {
+	var root, base string
+	name := fmt.Sprintf("ufs-pipelined-writes msize=%d piece=%d dotu=%v", msize, piece, dotu)
+	body := func() {
+		vs.EnableHB()
+		os.RemoveAll(root)
+		os.MkdirAll(root, 0o755)
+		for i := 0; i < 3; i++ {
+			os.WriteFile(filepath.Join(root, fmt.Sprintf("w%d", i)), []byte("old"), 0o644)
+		}
+		h := newUfsH(root, msize, dotu)
+		c := h.Connect()
+		ver := "9P2000"
+		if dotu {
+			ver = "9P2000.u"
+		}
+		c.Version(msize, ver)
+		un := ""
+		if !dotu {
+			un = go9p.OsUsers.Uid2User(os.Geteuid()).Name()
+		}
+		if r := c.Rpc(tattach(1, 0, wire.NOFID, un, uint32(os.Geteuid()), dotu)); r == nil || r.Type != wire.Rattach {
+			vs.Fail("attach answered by %v", r)
+		}
+		for i := 0; i < 3; i++ {
+			c.Rpc(twalk(2, 0, uint32(1+i), fmt.Sprintf("w%d", i)))
+			if r := c.Rpc(&wire.Msg{Type: wire.Topen, Tag: 3, Fid: uint32(1 + i), Mode: 1}); r == nil || r.Type != wire.Ropen {
+				vs.Fail("open answered by %v", r)
+			}
+		}
+		var ms []*wire.Msg
+		tag := uint16(20)
+		payload := func(i int) []byte { return bytes.Repeat([]byte{byte('A' + i)}, int(msize)-24-i) }
+		for i := 0; i < 3; i++ {
+			ms = append(ms, &wire.Msg{Type: wire.Twrite, Tag: tag, Fid: uint32(1 + i), Offset: 0, Data: payload(i)})
+			tag++
+		}
+		// about 8 x msize of further requests on other fids
+		// (walks from the shared root fid, each to a fid of its own, as the precondition allows)
+		// long (missing) names keep the number of requests, and with it the schedule space, small
+		long := strings.Repeat("n", int(msize)-24)
+		for n := 0; n < int(msize)*8; n += int(msize) - 5 {
+			ms = append(ms, twalk(tag, 0, uint32(100+int(tag)), long))
+			tag++
+		}
+		// piece > 0: bounded pieces; piece == 0: exactly one frame per read, so that the
+		// buffer runs out on a frame boundary
+		var ends []int
+		off := c.SrvEnd.ReadOffset()
+		for _, m := range ms {
+			off += len(wire.Encode(m, dotu))
+			ends = append(ends, off)
+		}
+		c.SrvEnd.Seg = func(avail, want int) int {
+			if piece > 0 {
+				return piece
+			}
+			at := c.SrvEnd.ReadOffset()
+			for _, e := range ends {
+				if e > at {
+					return e - at
+				}
+			}
+			return avail
+		}
+		vs.Window(true)
+		c.Send(dotu, ms...)
+		vs.Idle()
+		vs.Window(false)
+		for i := 0; i < 3; i++ {
+			got, _ := os.ReadFile(filepath.Join(root, fmt.Sprintf("w%d", i)))
+			if !bytes.Equal(got, payload(i)) {
+				// only another goroutine writing the request's payload while the write was being
+				// carried out can do this: the race itself, seen through its effect
+				vs.Fail("payload overwritten during the write: file w%d holds %q, the client sent %q", i, got, payload(i))
+			}
+		}
+	}
+	return Scenario{Name: name, Run: func(rc *RunCtx) *Result {
+		base, root = scratchDir("c19")
+		defer os.RemoveAll(base)
+		return runVs(rc, &VsSpec{Name: name, Body: body, Check: c19Check, P: D, Delay: true})
 	}}
 }
 
@@ -219,6 +312,7 @@ func c19Scenarios(tier string) []Scenario {
 		out = append(out, c19ClientScenario(2, dotu, D))
 	}
 	out = append(out, c19UfsScenario(3, true, D), c19ClientScenario(3, false, D))
+	out = append(out, c19UfsPipelineScenario(64, 0, false, D), c19UfsPipelineScenario(64, 33, true, D), c19UfsPipelineScenario(96, 0, true, D))
 	sort.Slice(out, func(i, j int) bool { return out[i].Name < out[j].Name })
 	return out
 }
@@ -226,7 +320,7 @@ func c19Scenarios(tier string) []Scenario {
 func init() {
 	register(&Property{ID: "C19", Level: "model_checking",
 		Technique: "stateless model checking under the controlled scheduler with an own vector-clock happens-before race monitor evaluated on every explored schedule (memory accesses instrumented by vinst -hb)",
-		Rule:      "workloads inside the property's precondition: one client shared by 2-3 goroutines each working on its own file against Ufs (walks from the shared root fid, open/read/write/stat/clunk); the server framework with pipelined requests on distinct fids right after Tversion, a parked request flushed while others run, a second connection opened, used and dropped while the first stays busy; the client against a scripted peer; every schedule with at most D deviations from the default scheduler (quick 1, thorough 2). The monitor mirrors the race detector's edges (mutex, channel incl. capacity edge, go, WaitGroup, atomics, the standard library's global I/O synchronisation). distinct = distinct per-object operation orders",
+		Rule:      "workloads inside the property's precondition: one client shared by 2-3 goroutines each working on its own file against Ufs (walks from the shared root fid, open/read/write/stat/clunk); the server framework with pipelined requests on distinct fids right after Tversion, a parked request flushed while others run, a second connection opened, used and dropped while the first stays busy; the client against a scripted peer; Ufs at msize 64/96 with three pipelined Twrites on distinct fids followed by 8 x msize of walks from the shared root fid to fresh fids, delivered one frame per read (the buffer runs out on a frame boundary) or in 33-byte pieces; every schedule with at most D deviations from the default scheduler (quick 1, thorough 2). The monitor mirrors the race detector's edges (mutex, channel incl. capacity edge, go, WaitGroup, atomics, the standard library's global I/O synchronisation). distinct = distinct per-object operation orders",
 		Assumptions: []string{"sequential consistency; accesses by name to local variables are not tracked; the scripted implementation and the harness are not instrumented", "a race is reported once per unordered pair of source positions"},
 		Scenarios:   c19Scenarios, QuickS: 110, ThoroughS: 1500})
 }
